@@ -14,7 +14,7 @@ import (
 func TestECDSAP256AgainstStdlib(t *testing.T) {
 	d := newDRBG("ecdsa-p256")
 	c := P256()
-	for i := 0; i < 16; i++ {
+	for i := 0; i < 10; i++ {
 		sk := new(big.Int).Add(d.below(new(big.Int).Sub(c.N, bigOne)), bigOne)
 		q := c.ScalarBaseMul(sk)
 		priv, err := ecdsa.ParseRawPrivateKey(elliptic.P256(), sk.FillBytes(make([]byte, 32)))
@@ -108,7 +108,7 @@ func TestECDSAP256AgainstStdlib(t *testing.T) {
 func TestECDSAOtherCurves(t *testing.T) {
 	d := newDRBG("ecdsa-other")
 	for _, c := range []*Curve{K256(), Pallas(), Vesta()} {
-		for i := 0; i < 10; i++ {
+		for i := 0; i < 4; i++ {
 			sk := new(big.Int).Add(d.below(new(big.Int).Sub(c.N, bigOne)), bigOne)
 			q := c.ScalarBaseMul(sk)
 			digest := d.bytes([]int{20, 32, 48, 64}[i%4])
